@@ -12,7 +12,7 @@ ASSUMPTIONS = ['hashlib sha3_*/shake_*', 'own bit-level Keccak reference (self-t
                'NIST mode = SHA-3 competition KAT convention (last partial byte holds its bits in the high positions)', 'output bits packed LSB-first (FIPS 202 B.1)']
 ANCHORS = [('keccak.py', 'Keccak.iterblocks'), ('keccak.py', 'Keccak.__call__'), ('keccak.py', 'State.load'), ('keccak.py', 'State.dump'), ('keccak.py', 'Round'),
            ('keccak.py', 'rot'), ('keccak.py', 'Keccak.duplex'), ('keccak.py', 'Keccak.f'), ('sha.py', 'SHA3.__call__'), ('sha.py', 'SHAKE128'), ('sha.py', 'SHAKE256')]
-REQUIRED = ['siblings:sponge==reference', 'sponge==reference', 'output-length', 'sha3==hashlib', 'shake==hashlib', 'duplex==reference', 'singleton==reference', 'pad-overflow-gets-extra-block']
+REQUIRED = ['after-error:sponge==reference', 'after-error:duplex==reference', 'siblings:sponge==reference', 'sponge==reference', 'output-length', 'sha3==hashlib', 'shake==hashlib', 'duplex==reference', 'singleton==reference', 'pad-overflow-gets-extra-block']
 NSHARDS = 14
 SAN = {'quick': (2, 80), 'thorough': (2, 80)}
 CASE_CPU_S = 300
@@ -62,6 +62,8 @@ def cases(tier, rng):
                     yield {'k': 'sponge', 'b': b, 'r': r, 'L': L, 'mode': 'native', 'sur': 1, 'dc': 'r'}
     for j in range(20 if tier == 'quick' else 150):
         yield {'k': 'siblings', 'j': j}
+    for j in range(24 if tier == 'quick' else 200):
+        yield {'k': 'after-error', 'j': j}
     for n in (224, 256, 384, 512):
         rb = (1600 - 2 * n) // 8
         ls = set(range(0, (2 * rb + 3) if tier == 'thorough' else 20)) | {rb - 2, rb - 1, rb, rb + 1, 2 * rb - 1, 2 * rb, 2 * rb + 1, 3 * rb - 1, 3 * rb, 4 * rb, 4 * rb + 1}
@@ -129,6 +131,57 @@ def run(case, ctx, rng):
         specs.append(('keccak_%d singleton' % n2, (lambda n2=n2: getattr(KM, 'keccak_%d' % n2)),
                       [('h(Y)', (lambda o, Y=Y: o(Y)), rk.bits2bytes(rk.sponge(1600, 1600 - 2 * n2, rk.bytes2bits_nist(Y, 72), n2)))]))
         siblings(ctx, rng, 'siblings:sponge==reference', specs, late=specs.pop(0))
+    elif k == 'after-error':
+        # one object: calls with a per-call rate, calls that are refused (also refused duplex inputs), then ordinary calls --
+        # every accepted call must still equal the reference
+        j = case['j']
+        b, r = [(1600, 1088), (200, 40), (400, 144), (1600, 576), (800, 520), (1600, 1344)][j % 6]
+        ctx.cls(('after-error', b, r, j % 4))
+        if j % 2 == 0:
+            d = [256, 64, 8, r + 3][j % 4]
+            h = Keccak(b=b, r=r, len=d)
+            mode = 'native' if j % 4 == 2 else 'nist'
+            h.duplexing = (mode == 'native')
+            def refd(M, L, rr):
+                bits = rk.bytes2bits_nist(M, L) if mode == 'nist' else rk.bytes2bits_lsb(M, L)
+                return rk.bits2bytes(rk.sponge(b, rr, bits, d))
+            r2 = [8, r - 8, b - 16 if b - 16 <= 1536 else 1536][j % 3]
+            M = rng.randbytes(9)
+            steps = [('h(M,r=r2)', lambda: h(M, r=r2), refd(M, 72, r2)),
+                     ('h(M,bitlen=too-big,r=r2)!', lambda: h(M, bitlen=500, r=r2), None),
+                     ('h(M)', lambda: h(M), refd(M, 72, r)),
+                     ('h(M,r=2000)!', lambda: h(M, r=2000), None),
+                     ('h(M,bitlen=13)', lambda: h(M, bitlen=13), refd(M, 13, r)),
+                     ('h(M,bitlen=too-big)!', lambda: h(M, bitlen=80), None),
+                     ('h(empty)', lambda: h(b''), refd(b'', 0, r))]
+            rng.shuffle(steps)
+            hist = []
+            for label, f, want in steps:
+                got = call(f); hist.append(label)
+                if want is None:
+                    ctx.notes['after-error: perturbing call %s' % ('raised' if is_exc(got) else 'returned')] += 1      # out-of-domain call: only a perturbation
+                else:
+                    ctx.eq('after-error:sponge==reference', got, want, b=b, r=r, d=d, mode=mode, history=list(hist))
+        else:
+            if r < 12: r = 40
+            h = Keccak(b=b, r=r)
+            D = rk.Duplex(b, r)
+            hist = []
+            for i in range(5):
+                if i in (1, 3):
+                    # input longer than r-2 bits: refused, and the running state must not move
+                    got = call(lambda: h.duplex(rng.randbytes((r + 7) // 8 + 1), bitlen=r - 1 if i == 1 else r + 5))
+                    hist.append('duplex(too long)!')
+                    ctx.notes['after-error: over-long duplex input %s' % ('raised' if is_exc(got) else 'returned')] += 1
+                    if not is_exc(got):
+                        break                  # the object accepted it: the reference duplex has no counterpart, stop this history
+                    continue
+                L = rng.randrange(0, r - 1); ol = rng.choice([8, r, 1])
+                M = rng.randbytes((L + 7) // 8)
+                want = rk.bits2bytes(D(rk.bytes2bits_lsb(M, L), ol))
+                got = call(lambda: h.duplex(M, bitlen=L, outlen=ol))
+                hist.append('duplex(%d bits)' % L)
+                ctx.eq('after-error:duplex==reference', got, want, b=b, r=r, history=list(hist))
     elif k == 'duplex':
         b, r = case['b'], case['r']
         if r < 3:
